@@ -121,10 +121,7 @@
 //!
 //! [MDC]: https://crates.io/crates/log-mdc
 
-use chrono::{
-    format::{Item, StrftimeItems},
-    Local, Utc,
-};
+use chrono::{Local, Utc};
 use derivative::Derivative;
 use log::{Level, Record};
 use std::{default::Default, io, process, thread};
@@ -415,9 +412,15 @@ impl<'a> From<Piece<'a>> for Chunk {
                     };
 
                     // An invalid format would only be detected when a record is
-                    // formatted, where it cannot be reported any more.
-                    if StrftimeItems::new(&format).any(|item| matches!(item, Item::Error)) {
-                        return Chunk::Error(format!("invalid date format `{}`", format));
+                    // formatted, where it cannot be reported any more. Parsing the
+                    // format is not enough: some items (e.g. `%#z`) only exist for
+                    // parsing and fail when displayed, so format once for real.
+                    {
+                        use std::fmt::Write;
+                        let mut probe = String::new();
+                        if write!(probe, "{}", Utc::now().format(&format)).is_err() {
+                            return Chunk::Error(format!("invalid date format `{}`", format));
+                        }
                     }
 
                     let timezone = match formatter.args.get(1) {
